@@ -15,10 +15,6 @@ theorem parseLines_append_ok {ls ext : List Str} {r' : List Stmt} (h : parseLine
   rw [parseLines_append] at h
   cases h1 : parseLines ls <;> cases h2 : parseLines ext <;> simp_all [oapp]
 
-theorem oapp_eq_ok {α} {x y : Outcome (List α)} {r : List α} (h : oapp x y = .ok r) :
-    ∃ a b, x = .ok a ∧ y = .ok b ∧ r = a ++ b := by
-  cases x <;> cases y <;> simp_all [oapp]
-
 /-- the expanded statements of `ls` are a prefix of those of `ls ++ ext` -/
 theorem front_append_ok {fs : Files} {ls ext : List Str} {r' : List Stmt}
     (h : front fs (ls ++ ext) = .ok r') :
